@@ -271,7 +271,9 @@ def data_number_classifier(ck, F, P):
 
 
 def data_inverse(ck, F):
-    rd = F.one("data::data_elements_to_string::{closure#0}") or F.one("data_elements_to_string::{closure#0}")
+    # the per-item rendering: the closure of the iterator chain, or the function itself when it is written as a loop
+    rd = F.one("data::data_elements_to_string::{closure#0}") or F.one("data_elements_to_string::{closure#0}") or \
+        F.one("data::data_elements_to_string")
     pc = F.one("DataParser::parse_char")
     if rd is None or pc is None:
         ck.missing("C14:DATA:fns", "data_elements_to_string closure / DataParser::parse_char")
@@ -305,7 +307,11 @@ def data_inverse(ck, F):
     raw_when_quote = 0      # string paths written raw on the true arm of contains('"')
     quoted_with_quote = 0   # string paths written between quotes although the item may contain a quote
     has_contains_test = False
-    for r in path_records(rd):
+    from lib import iteration_paths
+    recs_ = path_records(rd)
+    if rd.natural_loops():
+        recs_ = recs_ + path_records(rd, paths=iteration_paths(rd))      # the per-item code is a loop body
+    for r in recs_:
         is_str = any(val == "String" for (_t, _ps, val, _s) in r["decisions"])
         if not is_str:
             continue
@@ -329,6 +335,15 @@ def data_inverse(ck, F):
                     has_contains_test = True
                     if isinstance(val, bool):
                         contains_quote = val
+        if not quoted:
+            # written out by hand: push('"'); push_str(item); push('"')
+            qs = [c for c in r["calls"] if c.callee.endswith("String::push") and len(c.args) > 1 and
+                  strip_expr(rd.expr(c.args[1]))[0] == "const" and strip_expr(rd.expr(c.args[1]))[1].get("int") == 34]
+            ps = [c for c in r["calls"] if c.callee.endswith("String::push_str")]
+            if len(qs) >= 2 and ps:
+                i0, i1 = r["calls"].index(qs[0]), r["calls"].index(qs[-1])
+                if any(i0 < r["calls"].index(p) < i1 for p in ps):
+                    quoted = True
         if quoted:
             if contains_quote is not False:
                 quoted_with_quote += 1
@@ -385,5 +400,9 @@ def data_inverse(ck, F):
     if de is not None:
         joins = [c for c in de.calls() if c.callee.endswith("::join")]
         ok = any(any(expr_const_str(de.expr(a)) == ", " for a in c.args) for c in joins)
+        if not ok:
+            # or pushed between items by hand
+            ok = any(c.callee.endswith("String::push_str") and len(c.args) > 1 and expr_const_str(de.expr(c.args[1])) == ", "
+                     for c in de.calls())
         ck.require(ok, "C14:DATA:separator", "DATA renderer vs parser", "items are joined by `, `",
                    "DATA items are no longer joined by `, `", de.span)
